@@ -18,6 +18,10 @@ import FxVerif.Gen.C08
 import FxVerif.Gen.C08b
 import FxVerif.Gen.C08c
 import FxVerif.Proofs.C08Wrap
+import FxVerif.Model.C08Gen
+import FxVerif.Proofs.C08Gen
+import FxVerif.Model.C08Sol
+import FxVerif.Gen.C08d
 /-!
 # C08 — coin ↔ ERC-20 conversion conserves value and keeps the token-pair books balanced
 
@@ -1265,5 +1269,101 @@ theorem mixed_tx_failed_frame_caches_reverted_burn :
   decide
 
 end Frames
+
+
+/-! ### erc20 genesis export / import (Model/C08Gen.lean, round 4) -/
+
+section Genesis
+open FxVerif.Proofs.C08 FxVerif.Gen.C08d
+
+/-- what `InitGenesis` / `ExportGenesis` are, read off the AST: the exported state is the parameters and the pair records;
+the import loop starts with `AddTokenPair`; whether it restores the alias index is `restoresAliases` of the very list -/
+theorem genesis_calls_match_code :
+    exportGenesis_fields = [("Params", "GetParams"), ("TokenPairs", "GetAllTokenPairs")] ∧
+    initGenesis_loop_calls.head? = some "AddTokenPair" := by
+  decide
+
+/-- **the round trip keeps every pair**: for EVERY store satisfying I_index, export followed by import into a fresh store
+answers every lookup of the pair records, of the denom index and of the contract index exactly as before, and the bank
+metadata (imported by the bank module) is the same — whatever the import does about aliases -/
+theorem genesis_round_trip_keeps_pairs (r : Bool) (i : Idx) (hi : IdxInv i) :
+    (∀ id, lookup id (genesisRoundTrip r i).pairs = lookup id i.pairs) ∧
+    (∀ d, lookup d (genesisRoundTrip r i).byDenom = lookup d i.byDenom) ∧
+    (∀ ct, lookup ct (genesisRoundTrip r i).byErc = lookup ct i.byErc) ∧ (genesisRoundTrip r i).md = i.md :=
+  roundTrip_pairs r i hi
+
+/-- **genesis round trip = identity, PROVIDED the import rebuilds the alias index** (`_partial`: the hypothesis is about the
+code — the loop body of `InitGenesis` must call `SetAliasesDenom` with the aliases of the imported pair's bank metadata;
+it is evaluated on the regenerated call list): every lookup of all four indexes and the metadata are unchanged, hence
+I_index and every book over "base + aliases" survive an export / import -/
+theorem genesis_round_trip_identity_partial (i : Idx) (hi : IdxInv i)
+    (hcode : restoresAliases initGenesis_loop_calls = true) :
+    Idx.Same (genesisRoundTrip (restoresAliases initGenesis_loop_calls) i) i := by
+  rw [hcode]
+  obtain ⟨h1, h2, h3, h4⟩ := roundTrip_pairs true i hi
+  exact ⟨h1, h2, h3, roundTrip_alias_restore i hi, h4⟩
+
+/-- the restoring import on a store with aliases: everything comes back -/
+example :
+    let i := (stepIdx genesisIdx (.registerCoin 1 10 [110, 111])).toOption.getD genesisIdx
+    indexOk i = true ∧ indexOk (genesisRoundTrip true i) = true ∧
+    lookup 110 (genesisRoundTrip true i).aliasIdx = some 1 ∧ lookup 111 (genesisRoundTrip true i).aliasIdx = some 1 := by
+  decide
+
+/-- witness (an import that only calls `AddTokenPair`): a store satisfying I_index in which denomination 1 owns the aliases
+110 and 111 comes back with an EMPTY alias index while the bank metadata still lists both aliases — I_index is broken, the
+family of alias 110 is no longer found (`MsgConvertDenom` of alias coins fails) and the alias can be registered again for
+another token -/
+theorem genesis_round_trip_without_alias_restore_breaks_index :
+    let i := (stepIdx genesisIdx (.registerCoin 1 10 [110, 111])).toOption.getD genesisIdx
+    let i' := genesisRoundTrip false i
+    indexOk i = true ∧ indexOk i' = false ∧ i'.aliasIdx = [] ∧ lookup 1 i'.md = some [110, 111] ∧
+    (familyOf i 110).isSome = true ∧ familyOf i' 110 = none ∧
+    (stepIdx i (.registerCoin 2 11 [110])).toOption.isSome = false ∧
+    (stepIdx i' (.registerCoin 2 11 [110])).toOption.isSome = true := by
+  decide
+
+end Genesis
+
+/-! ### the FIP20 slot programs are the Solidity source (Model/C08Sol.lean, Gen/C08d.lean, round 4) -/
+
+section Fip20Source
+open FxVerif.Model.C08Cache FxVerif.Gen.C08d
+
+/-- **the token programs of the mixed-transaction model are what FIP20Upgradable.sol says**: for EVERY method call
+(`transfer`, `approve`, `transferFrom`, `mint`, `burn`, with any caller and any arguments) the slot program obtained by
+compiling the method's body — regenerated statement by statement from the Solidity source on every run, internal calls
+(`_transfer`, `_mint`, `_burn`, `_approve`) included — IS the program the StateDB cache / journal theorems are about.  A
+changed statement, a reordered pair of statements, a dropped `require`, a `+=` turned into `=` breaks this proof. -/
+theorem fip20_programs_match_code (m : Method) : m.compiled = m.prog := by
+  cases m <;> rfl
+
+/-- the coherence / I_sum theorems restated over the compiled programs: a transaction whose steps are COMPILED method calls
+between counted holders keeps "Σ balances − totalSupply" when coherent -/
+theorem mixed_tx_preserves_sum_compiled_partial (hs : List Nat) (hn : hs.Nodup) (steps : List MStep)
+    (hm : ∀ s ∈ steps, ∃ m : Method, s.prog = m.compiled ∧ ∀ a ∈ m.holders, a ∈ hs) (st : Store) (esc : Nat)
+    (hc : CoherentTx steps ⟨{ store := st }, esc⟩) :
+    FxVerif.Proofs.C08Cache.tokDiff hs (txResult steps st esc).2.1 = FxVerif.Proofs.C08Cache.tokDiff hs st :=
+  mixed_tx_preserves_sum_partial hs hn steps
+    (fun s h => by obtain ⟨m, h1, h2⟩ := hm s h; exact ⟨m, by rw [h1, fip20_programs_match_code], h2⟩) st esc hc
+
+/-- **storage layout**: `_totalSupply`, `_balanceOf` and `_allowance` are the 4th, 5th and 6th state variables of the
+contract, each of a type that takes a whole slot, so they live in three different slots (base + 3, + 4, + 5; the harness
+reads these raw slots of the deployed token and compares them with `totalSupply()` / `balanceOf()` / `allowance()`), and the
+model's `Slot` constructors `.supply`, `.bal`, `.allow` never alias -/
+theorem fip20_layout_matches_model :
+    varPos fip20_stateVars "_totalSupply" = some 3 ∧ varPos fip20_stateVars "_balanceOf" = some 4 ∧
+    varPos fip20_stateVars "_allowance" = some 5 ∧
+    (fip20_stateVars.map Prod.snd).take 6 =
+      ["string", "string", "uint8", "uint256", "mapping(address=>uint256)", "mapping(address=>mapping(address=>uint256))"] := by
+  decide
+
+/-- the compiled `transferFrom` run on a store: allowance and both balances move, the supply does not -/
+example :
+    let r := runPlain (Method.transferFrom 0 4 1 7).compiled (store0X 50 0 0 100 0 30 10)
+    r.1 = true ∧ r.2 (.bal 4) = 23 ∧ r.2 (.bal 1) = 7 ∧ r.2 (.allow 4 0) = 3 ∧ r.2 .supply = 100 := by
+  decide
+
+end Fip20Source
 
 end FxVerif.Props.C08
